@@ -51,7 +51,7 @@ func (g *gen) text() string {
 	r := g.r
 	n := r.Range(1, 12)
 	if r.Chance(1, 10) {
-		n = r.Range(30, 120)
+		n = r.Range(20, 60)
 	}
 	var sb strings.Builder
 	rtl := r.Chance(1, 6)
